@@ -553,6 +553,7 @@ type frame struct {
 	args  []Value
 	entryArgs []Value
 	rangeIdxCell map[*ssa.BasicBlock]*Cell
+	panicExits []*State // states in which a `maypanic` callee panicked inside this frame
 }
 
 func (e *Exec) constVal(c *ssa.Const) Value {
@@ -1021,6 +1022,53 @@ func (e *Exec) run(fn *ssa.Function, args []Value, bindings []Value, st *State, 
 			// handled in step (returns false)
 		}
 		_ = edgeCond
+	}
+	// a callee declared `maypanic` panicked: the frame's deferred calls run while unwinding; if one of
+	// them recovers, the function returns through its recover block (the named results as they are)
+	for _, ps := range fr.panicExits {
+		ps.panicking = true
+		ok := true
+		for ok {
+			n := len(ps.defers)
+			if n == 0 || ps.defers[n-1].fr != fr {
+				break
+			}
+			d := ps.defers[n-1]
+			ps.defers = ps.defers[:n-1]
+			if _, ok2 := e.callWith(fr, ps, nil, d.call, d.fnv, d.args); !ok2 {
+				ok = false
+			}
+		}
+		if !ok {
+			continue
+		}
+		if ps.panicking || fn.Recover == nil {
+			if e.topCt != nil && e.topCt.MayPanic {
+				continue // the function under verification is itself declared maypanic: the panic propagates
+			}
+			e.oblige(ps, "safe", "safe.panic@unrecovered", tFalse, "a callee that may panic is called in "+fn.Name()+" without a deferred recover")
+			continue
+		}
+		alive := true
+		for _, in := range fn.Recover.Instrs {
+			if _, isRD := in.(*ssa.RunDefers); isRD {
+				continue
+			}
+			if !e.step(fr, ps, in, fn.Recover) {
+				alive = false
+				break
+			}
+		}
+		if !alive {
+			continue
+		}
+		if t, isRet := fn.Recover.Instrs[len(fn.Recover.Instrs)-1].(*ssa.Return); isRet {
+			var vs []Value
+			for _, r := range t.Results {
+				vs = append(vs, e.val(fr, ps, r))
+			}
+			rets = append(rets, retInfo{ps, vs})
+		}
 	}
 	if e.depth == 1 && e.spec == 0 {
 		e.topRets = rets
